@@ -208,6 +208,22 @@ def run_lr_impl(hist, arch_eval, shared_layered_arch=None):
     return rules.run_rule(r, arch_eval)
 
 
+def build_lr(hist):
+    """The LayerRule object of a complete history (no evaluation); raises what the builder raises."""
+    _, LR = impl()
+    r = LR()
+    for c in hist:
+        if c[0] == "based_on":
+            r.based_on(build_arch(c[1]))
+        elif c[0] == "named":
+            r.are_named(c[1])
+        elif c[0] == "named_list":
+            r.are_named(list(c[1]))
+        elif c[0] != "assert_applies":
+            getattr(r, c[0])()
+    return r
+
+
 def enc_lr_history(lenc: LEnc, hist):
     out = []
     for c in hist:
